@@ -244,8 +244,17 @@ def store_roundtrip(parents: Tuple[int, ...], flush_mask: int, sym: Tuple[int, .
                 import shutil
                 shutil.rmtree(handle, ignore_errors=True)
 
-    return check_store, {"k0": 0, "k1": 1, "k2": 0, "k3": 1, "v0": 100, "v1": 101, "v2": 102, "v3": 103, "d0": 0, "d1": 0, "d2": 0, "d3": 0,
-                         "i0": 0, "i1": 0, "i2": 0, "i3": 0, "ties_reversed": False}
+    w = {"k0": 0, "k1": 1, "k2": 0, "k3": 1, "v0": 100, "v1": 101, "v2": 102, "v3": 103, "d0": 0, "d1": 0, "d2": 0, "d3": 0,
+         "i0": 0, "i1": 0, "i2": 0, "i3": 0, "ties_reversed": False}
+    for j in range(4):
+        if j >= n:
+            w["k%d" % j] = 0
+            w["v%d" % j] = 0
+        elif spends is not None:
+            w["i%d" % j] = spends[j]
+    if only_known:
+        w["k1"], w["v1"] = w["k0"], w["v0"]
+    return check_store, w
 
 
 class _NoFiles:
